@@ -303,3 +303,19 @@ def enumerations(tier, shard, nshards):
             yield {"gfa": POOL_GFA, "gaf": [POOL[k].replace("p%d\t" % k, "u%d\t" % i, 1) for i, k in enumerate(order)], "perms": []}
 
         yield ("70 000 records (more than 2^16) drawn from the near-tie pool in pseudo-random order", big(), True)
+
+        def wide():
+            # one bubble with 66 000 alleles (NO runs beyond 2^16): alignments anchored on low- and high-numbered inner nodes
+            lines = ["S\tq0\t*\tLN:i:4\tSN:Z:chr1\tSO:i:0\tSR:i:0\tBO:i:0\tNO:i:0"]
+            for k in range(1, 66001):
+                lines.append("S\ta%d\t*\tLN:i:3\tSN:Z:h%d\tSO:i:0\tSR:i:1\tBO:i:1\tNO:i:%d" % (k, k, k))
+            lines.append("S\tq1\t*\tLN:i:4\tSN:Z:chr1\tSO:i:4\tSR:i:0\tBO:i:2\tNO:i:0")
+            for k in (1, 2, 3, 65535, 65536, 65537, 65540, 65999, 66000):
+                lines += ["L\tq0\t+\ta%d\t+\t0M" % k, "L\ta%d\t+\tq1\t+\t0M" % k]
+            gaf = []
+            for i, k in enumerate((65537, 3, 66000, 65536, 1, 65535, 2, 65999, 65540)):
+                gaf.append("w%d\t9\t0\t3\t+\t>a%d\t3\t0\t3\t3\t3\t60" % (i, k))
+            gaf.append("w9\t9\t0\t7\t+\t>q0>a65536\t7\t1\t7\t6\t6\t60")
+            yield {"gfa": "\n".join(lines) + "\n", "gaf": gaf, "perms": [[9, 8, 7, 6, 5, 4, 3, 2, 1, 0]]}
+
+        yield ("one bubble with 66 000 inner nodes (NO beyond 2^16)", wide(), True)
